@@ -641,6 +641,9 @@ class Interp(object):
     # -- statements
     def block(self, stmts, c):
         for st in stmts:
+            if self.case.get("reseed"):
+                import random as _random
+                _random.seed(12345)      # applications reseed the global PRNG; task uuids must stay unique
             try:
                 self.stmt(st, c)
             finally:
@@ -790,7 +793,10 @@ class Interp(object):
             _, h, slot, h2, c2, body, via = st
             from eliot import Action, preserve_context
             box = []
-            self.shadow[c2] = []
+            inline = via.endswith("_inline")
+            via = via.replace("_inline", "")
+            if not inline:
+                self.shadow[c2] = []
             self.arec[str(h2)] = {"exc": None, "task": False, "parent": None, "style": "remote", "finished": False,
                                   "remote_of": h}
             node = {"k": "A", "type": "eliot:remote_task", "h": h2, "start": [], "sers": None, "succ": [], "children": [],
@@ -841,9 +847,12 @@ class Interp(object):
                     with self.call("continue_task", Action.continue_task, task_id=tid) as a2:
                         in_thread_body(a2)
                 target = guarded(via_id)
-            t = threading.Thread(target=target)
-            t.start()
-            t.join()
+            if inline:
+                target()
+            else:
+                t = threading.Thread(target=target)
+                t.start()
+                t.join()
             if box:
                 raise box[0]
         elif k == "reenter":
@@ -1011,9 +1020,10 @@ def canon_msg(m, interp):
             else:
                 cv = ["?", repr(v)]
         elif kk == 6:
-            cv = ["status", v]
+            cv = ["status", v] if v in ("started", "succeeded", "failed") else canon_value(v)
         elif kk == 7:
-            cv = ["cls", FOREIGN_CLASSES.get(v, interp.class_rev.get(v, v))] if isinstance(v, str) else canon_value(v)
+            known_cls = FOREIGN_CLASSES.get(v, interp.class_rev.get(v)) if isinstance(v, str) and "." in v else None
+            cv = ["cls", known_cls] if known_cls is not None else canon_value(v)
         elif kk == 8:
             if v == SAFEFAIL:
                 cv = ["safefail"]
@@ -1065,7 +1075,7 @@ class Gen(object):
     def __init__(self, rng, depth=4, width=4, p_raise=0.15, p_typed=0.3, p_fault_ser=0.0, p_handoff=0.08,
                  p_reenter=0.05, p_tb=0.05, p_finish_again=0.05, base_only=0.3, sr=0.15, p_try=0.15,
                  styles=("with", "with", "ctx", "run"), p_actlog=0.08, p_task=0.08, p_raw=0.0, p_hostile=0.0,
-                 p_finish_inside=0.0):
+                 p_finish_inside=0.0, p_reserved=0.0):
         self.rng = rng
         self.__dict__.update(locals())
         self.next_h = 0
@@ -1119,11 +1129,17 @@ class Gen(object):
             return {"i": rng.choice([0, 1, -1, 7, -5, 2 ** 31, 2 ** 53 + 1, -2 ** 63, 2 ** 63 - 1, rng.randrange(-100, 100)])}
         return {"a": 20 + rng.randrange(N_VALUES)}
 
-    def fields(self, maxn=3, lo=20, hi=30):
+    def fields(self, maxn=3, lo=20, hi=30, reserved=()):
+        """`reserved`: reserved field names (as key atoms) that may additionally be used as application
+        field names; the library overwrites them, so they must never show through"""
         rng = self.rng
         n = rng.randrange(0, maxn + 1)
         keys = rng.sample(range(lo, hi), n)
-        return [[k, self.value()] for k in keys]
+        out = [[k, self.value()] for k in keys]
+        if reserved and rng.random() < self.p_reserved:
+            k = rng.choice(list(reserved))
+            out.append([k, {"t": rng.randrange(10, 16)} if k in (4, 5) else rng.choice([{"i": rng.randrange(0, 9)}, {"a": 20 + rng.randrange(N_VALUES)}])])
+        return out
 
     def serfn(self):
         rng = self.rng
@@ -1195,13 +1211,15 @@ class Gen(object):
                 fs, succ = sl, ul
                 api = "ActionType"
             else:
-                sers, fs, succ, api = None, self.fields(3, 20, 26), self.fields(2, 26, 32), "start_action"
+                sers, fs, succ, api = None, self.fields(3, 20, 26, reserved=(1, 2, 3, 6)), self.fields(2, 26, 32, reserved=(1, 2, 3, 6, 7, 8)), "start_action"
             fs = fs + [[19, {"i": h}]]
             succ = succ + [[19, {"i": h}]]
             body = self.stmts(depth - 1, enclosing + [h], c)
             if sers is None and rng.random() < self.p_finish_inside and not (body and body[-1][0] == "raise"):
                 # finish() called as the last thing inside the action's own block (the block's exit then finishes again: no-op)
                 body = body + [["finish_again", h, self.exn() if rng.random() < 0.5 else None]]
+                if rng.random() < 0.4:
+                    body = body + [["raise", self.exn()]]     # finished explicitly, then the block still fails
             self.finished.append(h)
             return ["act", h, style, task, t, fs, sers, succ, body, api]
         if r < 0.62:
@@ -1211,7 +1229,7 @@ class Gen(object):
                 return ["msg", t, logged, decl, "typed"]
             if rng.random() < 0.06:
                 t = 5
-            return ["msg", t, self.fields(3, 32, 40), None, rng.choice(["log_message", "log_message", "Message.log", "Message.new"])]
+            return ["msg", t, self.fields(3, 32, 40, reserved=(1, 2, 3)), None, rng.choice(["log_message", "log_message", "Message.log", "Message.new"])]
         if r < 0.62 + self.p_raise:
             return ["raise", self.exn()]
         r2 = rng.random()
@@ -1222,12 +1240,15 @@ class Gen(object):
         if enclosing and r2 < self.p_try + self.p_tb + self.p_actlog:
             return ["actlog", rng.choice(enclosing), rng.randrange(10, 16), self.fields(2, 32, 40)]
         if enclosing and depth > 0 and r2 < self.p_try + self.p_tb + self.p_actlog + self.p_handoff:
-            via = rng.choice(["bytes", "str", "preserve"])
-            h = enclosing[-1] if via == "preserve" else rng.choice(enclosing)
+            via = rng.choice(["bytes", "str", "preserve", "bytes_inline", "preserve_inline"])
+            h = enclosing[-1] if via.startswith("preserve") else rng.choice(enclosing)
             # preserve_context uses current_action(): only valid if the innermost enclosing action is current
             self.next_slot += 1
-            c2 = self.next_ctx
-            self.next_ctx += 1
+            if via.endswith("_inline"):
+                c2 = c          # the callable is run by the submitting thread itself
+            else:
+                c2 = self.next_ctx
+                self.next_ctx += 1
             h2 = self.new_h()
             body = self.stmts(depth - 1, [h2], c2)
             return ["handoff", h, self.next_slot, h2, c2, body, via]
@@ -1269,7 +1290,9 @@ def is_exception_class(classes_spec, cid):
 
 
 def gen_case(rng, n_dests=2, fault=0.5, registry_rate=0.5, file_dest=False, p_globals=0.0, **kw):
-    g = Gen(rng, **kw)
+    gkw = dict(kw)
+    gkw.pop("p_reseed", None)
+    g = Gen(rng, **gkw)
     prog = g.program()
     dests = gen_dests(rng, g, n_dests, fault)
     if file_dest:
@@ -1278,7 +1301,7 @@ def gen_case(rng, n_dests=2, fault=0.5, registry_rate=0.5, file_dest=False, p_gl
     for cid in g.class_ids:
         if rng.random() < registry_rate * 0.5:
             if rng.random() < 0.7:
-                registry.append([cid, ["fields", g.fields(2, 40, 46)]])
+                registry.append([cid, ["fields", g.fields(2, 40, 46, reserved=(5, 6))]])
             else:
                 registry.append([cid, ["raise", g.exn(cls=rng.choice([8, 9] + [c for c in g.class_ids if c >= 50]))]])
     pre = [["add", dests]]
@@ -1288,7 +1311,10 @@ def gen_case(rng, n_dests=2, fault=0.5, registry_rate=0.5, file_dest=False, p_gl
             pre.insert(0, gl)
         else:
             pre.append(gl)
-    return {"classes": g.classes, "registry": registry, "pre": pre, "prog": prog}
+    case = {"classes": g.classes, "registry": registry, "pre": pre, "prog": prog}
+    if rng.random() < kw.get("p_reseed", 0.0):
+        case["reseed"] = True
+    return case
 
 
 def describe(case):
